@@ -6,58 +6,145 @@ package ratelimiting
 // This file holds only comments and is compiled only with -tags verif.
 //
 // C09, the lock-structured part (DESIGN.md §6 C09): monitor invariant on c.lock with ghost counters
-// adds (number of Add calls) and signals (number of signal hand-offs spawned). Proved for all interleavings of
-// lock-respecting goroutines: signals never exceed Adds; a signal is spawned only when something is pending;
-// Add always records a pending event; the first event of a window fires at once; the pending cap fires at once.
-// Timelines (when a signal arrives), Close/WaitGroup joins and goroutine hand-offs are outside this family.
+//   adds     number of Add calls,
+//   covered  number of Adds that a spawned signal hand-off stands for (pendingEvents at the moment of the hand-off),
+//   signals  number of signal hand-offs spawned (each hand-off goroutine sends at most once, on the caller's
+//            channel: contract of fireEvent$1),
+// and the arming state of the window timer (libspec ghost armed/dur, see atomic_clock.spec).
+// Proved for all interleavings of lock-respecting goroutines:
+//   S6  no Add is lost:        adds == covered + pendingEvents                       [C09.inv.noloss]
+//   S5  signals never exceed Adds: signals + pendingEvents <= adds                   [C09.inv.signals], [C09.signal.once]
+//   S2  (untimed core) an open window has a timer armed with the current length, the first window has the
+//       initial length, the length doubles up to the maximum                         [C09.inv.armed] [C09.inv.idle]
+//       [C09.input.firstwindow] [C09.input.doubles] [C09.input.rearm]
+//   S1/S3 the first token after idle and a token at the cap spawn a hand-off in the same critical section
+//   S6  Add hands exactly one token to the run loop                                  [C09.add.token*]
+//   S7  helper goroutines are registered with the WaitGroup before they start, Close closes closeCh, Run listens
+//       to it; the wait itself FAILS (known finding, Close$1).
+// Outside this family: when a signal arrives (timelines), delivery through the channels, the WaitGroup join itself.
 
 //@ type coalescing
 //@   ghost adds int
 //@   ghost signals int
-//@   lock lock protects pendingEvents timer hasTimer currentDur adds signals
+//@   ghost covered int
+//@   lock lock protects pendingEvents timer hasTimer currentDur adds signals covered
 //@   lockinv lock [C09.inv.pending] self.pendingEvents >= 0
 //@   lockinv lock [C09.inv.signals] self.signals >= 0 && self.signals + self.pendingEvents <= self.adds
+// S6 "no Add is lost": every Add is either still pending or covered by a spawned signal hand-off
+//@   lockinv lock [C09.inv.noloss] self.adds == self.covered + self.pendingEvents
 //@   lockinv lock [C09.inv.timer] (self.hasTimer.v != 0) <==> (self.timer != nil)
 //@   lockinv lock [C09.inv.backoff] self.initialDelay <= self.currentDur && self.currentDur <= self.maxDelay
+// S2, untimed core: an open window always has a timer that was armed with the window's current length and not
+// stopped since (so its expiry is delivered to the run loop); outside a window the length is the initial delay
+//@   lockinv lock [C09.inv.armed] self.hasTimer.v != 0 ==> (self.timer.armed && self.timer.dur == self.currentDur)
+//@   lockinv lock [C09.inv.idle] self.hasTimer.v == 0 ==> self.currentDur == self.initialDelay
 //@   invariant self.clock != nil && self.initialDelay > 0 && self.initialDelay <= self.maxDelay
 //@   invariant self.maxPendingEvents != nil ==> *self.maxPendingEvents > 0
 
+// fireEvent: "signals are sent only when something is pending"; a hand-off covers everything pending (S4: one
+// signal for the whole burst), is counted once, and is registered with the WaitGroup before it starts (S7).
 //@ func (*coalescing).fireEvent
 //@   tags C09
 //@   opt locks=caller
-//@   opt go=ignore
+//@   ghost reg int
 //@   requires c != nil && heldw(c.lock) && c.pendingEvents >= 0 && ctx != nil
-//@   modifies c.pendingEvents, c.signals
+//@   modifies c.pendingEvents, c.signals, c.covered
 //@   ensures heldw(c.lock)
 //@   ensures [C09.fire.pending] old(c.pendingEvents) > 0 ==> (c.pendingEvents == 0 && c.signals == old(c.signals) + 1)
 //@   ensures [C09.fire.nothing] old(c.pendingEvents) == 0 ==> (c.pendingEvents == 0 && c.signals == old(c.signals))
+//@   ensures [C09.fire.covers] c.covered == old(c.covered) + old(c.pendingEvents)
+//@   at entry ghost reg = 0
+//@   at call Add#0 ghost reg = reg + arg1
+//@   at before go#0 assert [C09.fire.registered] reg == 1
 //@   at before go#0 ghost c.signals = c.signals + 1
+//@   at every send assert [C09.fire.nosend] false
+//@   at every select assert [C09.fire.nosend.select] forall x :: !selhassend(x)
+//@   at before go#0 ghost c.covered = c.covered + old(c.pendingEvents)
 
-// the signal hand-off goroutine: offers one signal on ch until the context ends; writes no memory
+// the signal hand-off goroutine: offers one signal on the caller's channel until the context ends; sends at most
+// once (S5: a hand-off is at most one signal), on no other channel; writes no memory
 //@ func (*coalescing).fireEvent$1
 //@   tags C09
+//@   opt go=frame-only
+//@   ghost sent int
 //@   requires c != nil && ctx != nil
 //@   modifies nothing
+//@   at entry ghost sent = 0
+//@   at every select assert [C09.signal.chan] selhassend(ch) && (forall x :: selhassend(x) ==> x == ch)
+// S7: an undelivered signal must not keep Close waiting: the hand-off also watches the context it was given
+//@   at every select assert [C09.signal.watches] selhas(ctx.donech)
+//@   at every select ghost sent = sent + (selsend ? 1 : 0)
+//@   at every send assert [C09.signal.nobaresend] false
+//@   ensures [C09.signal.once] sent <= 1
+// S7: the hand-off deregisters from the WaitGroup exactly once, when it ends. Two calls are named Done here and call
+// anchors cannot tell a *sync.WaitGroup receiver from a context: the deferred c.wg.Done() and the single evaluation
+// of ctx.Done() for the select ([C09.signal.watches]); both are counted, hence 2.
+//@   ghost ndone int
+//@   at entry ghost ndone = 0
+//@   at every call Done ghost ndone = ndone + 1
+//@   ensures [C09.signal.deregisters] ndone == 2
 
+// reset: closes the window (back to idle with the initial delay). It must not be used to throw pending Adds away
+// (S6) and must not drop a timer that is still armed.
 //@ func (*coalescing).reset
 //@   tags C09
 //@   opt locks=caller
 //@   requires c != nil && heldw(c.lock) && c.timer != nil
-//@   modifies c.pendingEvents, c.currentDur, c.hasTimer.v, c.timer
+//@   requires [C09.reset.nodrop] c.pendingEvents == 0
+//@   modifies c.pendingEvents, c.currentDur, c.hasTimer.v, c.timer, c.timer.armed
 //@   ensures heldw(c.lock)
 //@   ensures [C09.reset] c.pendingEvents == 0 && c.currentDur == c.initialDelay && c.hasTimer.v == 0 && c.timer == nil
+//@   ensures [C09.reset.stopped] !old(c.timer).armed
+//@   at every send assert [C09.reset.nosend] false
+//@   at every select assert [C09.reset.nosend.select] forall x :: !selhassend(x)
 
+// Add: counted under the lock (S6), no signal by itself, exactly one token hand-off goroutine spawned (S6/S1:
+// "Add counts under the lock and hands a token to the run loop"), registered with the WaitGroup before it starts.
+// The assume is an overflow guard: 2^62 Adds without a single flush (each at >= 1 ns: > 140 years).
 //@ func (*coalescing).Add
 //@   tags C09
-//@   opt go=ignore
+//@   ghost spawned int
+//@   ghost reg int
 //@   requires c != nil
 //@   ensures [C09.add.counted] at(U, c.adds) == at(L, c.adds) + 1 && at(U, c.pendingEvents) == at(L, c.pendingEvents) + 1
-//@   ensures [C09.add.nosignal] at(U, c.signals) == at(L, c.signals)
+//@   ensures [C09.add.nosignal] at(U, c.signals) == at(L, c.signals) && at(U, c.covered) == at(L, c.covered)
+//@   ensures [C09.add.token] spawned == 1
+//@   at entry ghost spawned = 0
+//@   at entry ghost reg = 0
+//@   at every go ghost spawned = spawned + 1
+//@   at call Add#0 ghost reg = reg + arg1
+//@   at every before go assert [C09.add.registered] reg == spawned + 1
 //@   at store pendingEvents#0 ghost c.adds = c.adds + 1
 //@   at call Lock#0 assume c.pendingEvents < 4611686018427387904
 //@   at call Lock#0 label L
 //@   at before call Unlock#0 label U
 
+// the token hand-off goroutine: offers one token on c.inputCh until Close; sends at most once; writes no memory
+//@ func (*coalescing).Add$1
+//@   tags C09
+//@   opt go=frame-only
+//@   ghost sent int
+//@   requires c != nil
+//@   modifies nothing
+//@   at entry ghost sent = 0
+//@   at select#0 assert [C09.add.token.offer] selhassend(c.inputCh) && selhas(c.closeCh)
+//@   at every select assert [C09.add.token.chan] forall x :: selhassend(x) ==> x == c.inputCh
+//@   at every select ghost sent = sent + (selsend ? 1 : 0)
+//@   at every send assert [C09.add.token.nobaresend] false
+//@   ensures [C09.add.token.once] sent <= 1
+// S7: the hand-off deregisters from the WaitGroup exactly once, when it ends
+//@   ghost ndone int
+//@   at entry ghost ndone = 0
+//@   at every call Done ghost ndone = ndone + 1
+//@   ensures [C09.add.token.deregisters] ndone == 1
+
+// expiry of the window: everything pending is flushed by one hand-off, the window closes (next Add is "first after idle").
+// ASSUMPTION `c.timer != nil` after the acquisition (listed in the evidence; audit-C09 Q2). It is an ownership argument the
+// engine cannot express yet: timer/hasTimer/currentDur are written only by handleInputCh/handleTimerFired/reset, which
+// run only on the single Run goroutine (Run is unique: `running` CAS, never cleared); Run calls handleTimerFired only
+// after receiving from timerCh != nil ([C09.run.dispatch.timer]), i.e. after it saw hasTimer set under RLock, and
+// nobody else can have closed the window in between. It would become false if a second writer of `timer` appeared
+// (a Reset/flush API, or `running` being cleared so that a second Run overlaps a handler of the first).
 //@ func (*coalescing).handleTimerFired
 //@   tags C09
 //@   requires c != nil && inv(c) && ctx != nil
@@ -66,6 +153,8 @@ package ratelimiting
 //@   ensures [C09.timer.closed] at(U, c.hasTimer.v) == 0 && at(U, c.adds) == at(L, c.adds)
 //@   at call Lock#0 label L
 //@   at call Lock#0 assume c.timer != nil
+//@   at every send assert [C09.timer.nosend] false
+//@   at every select assert [C09.timer.nosend.select] forall x :: !selhassend(x)
 //@   at before call Unlock#0 label U
 
 //@ func (*coalescing).handleInputCh
@@ -83,6 +172,14 @@ package ratelimiting
 // window re-arms the timer with min(2 * current, max) -- never less, for every InitialDelay <= MaxDelay
 //@   ensures [C09.input.doubles] (at(L, c.hasTimer.v) != 0 && !(c.maxPendingEvents != nil && at(L, c.pendingEvents) >= *c.maxPendingEvents)) ==>
 //@        at(U, c.currentDur) == min(2 * at(L, c.currentDur), c.maxDelay)
+// the first window (opened by the first Add after idle) has the initial delay
+// S2/S6: once a token has been handled, whatever is still pending has an open window (whose timer is armed by
+// [C09.inv.armed], whose expiry Run dispatches to handleTimerFired, which flushes: [C09.timer.flush])
+//@   ensures [C09.input.pendinghaswindow] at(U, c.pendingEvents) > 0 ==> at(U, c.hasTimer.v) != 0
+// S5: signals reach the caller's channel only through the counted hand-offs of fireEvent
+//@   at every send assert [C09.input.nosend] false
+//@   at every select assert [C09.input.nosend.select] forall x :: !selhassend(x)
+//@   at before call NewTimer#0 assert [C09.input.firstwindow] arg1 == c.initialDelay
 //@   at before call Reset#0 assert [C09.input.rearm] arg1 == c.currentDur && c.initialDelay <= arg1 && arg1 <= c.maxDelay
 //@   replay template coalescingwindow
 //@   replay val initial = c.initialDelay
@@ -99,11 +196,33 @@ package ratelimiting
 //@   ensures [C09.new.order] (opts.InitialDelay != nil && opts.MaxDelay != nil && *opts.MaxDelay < *opts.InitialDelay) ==> (result == nil && result1 != nil)
 //@   ensures [C09.new.pending] (opts.MaxPendingEvents != nil && *opts.MaxPendingEvents <= 0) ==> (result == nil && result1 != nil)
 //@   ensures [C09.new.ok] result1 == nil ==> (result != nil && fresh(result))
+// base case of the monitor invariant: a new limiter is idle, nothing pending, window length = initial delay, and
+// satisfies the configuration invariant that Run requires (InitialDelay <= MaxDelay, both > 0, cap > 0 if set)
+//@   ensures [C09.new.idle] result1 == nil ==> (typeis(result, "*github.com/dapr/kit/events/ratelimiting.coalescing") && inv(unbox(result, "*github.com/dapr/kit/events/ratelimiting.coalescing"))
+//@        && unbox(result, "*github.com/dapr/kit/events/ratelimiting.coalescing").pendingEvents == 0 && unbox(result, "*github.com/dapr/kit/events/ratelimiting.coalescing").hasTimer.v == 0
+//@        && unbox(result, "*github.com/dapr/kit/events/ratelimiting.coalescing").timer == nil
+//@        && unbox(result, "*github.com/dapr/kit/events/ratelimiting.coalescing").currentDur == unbox(result, "*github.com/dapr/kit/events/ratelimiting.coalescing").initialDelay)
+// the limiter runs with the configured values ("for all InitialDelay <= MaxDelay and MaxPendingEvents")
+//@   ensures [C09.new.config] result1 == nil ==> ((opts.InitialDelay != nil ==> unbox(result, "*github.com/dapr/kit/events/ratelimiting.coalescing").initialDelay == *opts.InitialDelay)
+//@        && (opts.MaxDelay != nil ==> unbox(result, "*github.com/dapr/kit/events/ratelimiting.coalescing").maxDelay == *opts.MaxDelay)
+//@        && unbox(result, "*github.com/dapr/kit/events/ratelimiting.coalescing").maxPendingEvents == opts.MaxPendingEvents)
+// documented defaults (OptionsCoalescing: "Defaults to 500ms" / "Defaults to 5s")
+//@   ensures [C09.new.defaults] result1 == nil ==> ((opts.InitialDelay == nil ==> unbox(result, "*github.com/dapr/kit/events/ratelimiting.coalescing").initialDelay == 500000000)
+//@        && (opts.MaxDelay == nil ==> unbox(result, "*github.com/dapr/kit/events/ratelimiting.coalescing").maxDelay == 5000000000))
 
-// Close: the deferred function waits for the WaitGroup while holding c.lock. The goroutines it waits for (Run's
-// loop inside handleInputCh / handleTimerFired) need c.lock: a wait-order violation, asserted at the blocking
-// call. It FAILS on the current code: registered as a known finding (see /verif/known_findings.json) because the
-// lock is there to order Run's wg.Add against Wait and cannot simply be dropped.
+// Close (S7): closes closeCh -- the signal that ends Run and releases the token hand-offs -- and then joins.
+//@ func (*coalescing).Close
+//@   tags C09
+//@   requires c != nil
+//@   at close#0 assert [C09.close.closes] arg0 == c.closeCh
+
+// Close: the deferred function waits for the WaitGroup while holding c.lock. The goroutines it waits for need
+// c.lock: Run's loop (loop-top RLock, handleInputCh / handleTimerFired) with or without an Add in flight. A
+// wait-order violation, asserted at the blocking call. It FAILS on the current code: registered as a known finding
+// (see /verif/known_findings.json) because the lock is there to order Run's wg.Add against Wait and cannot simply be
+// dropped. Consequences when it strikes (audit-C09 G1): Close never returns; every later Add() blocks its caller for
+// ever on c.lock; cancelling Run's context does not help (Run is blocked on c.lock, not in its select); the rate
+// grows with the number of tokens in flight.
 //@ func (*coalescing).Close$1
 //@   tags C09
 //@   requires c != nil
@@ -111,15 +230,35 @@ package ratelimiting
 //@   replay template coalescingclose
 //@   replay val dummy = 0
 
-// Run: the event hand-off goroutines spawned by the handlers must watch the context that Run cancels when Close
-// is called (otherwise Close's wg.Wait never ends while a signal is undelivered): the handlers receive the
-// derived context, not the caller's.
+// Run: listens to tokens and to Close; a token goes to handleInputCh, an expiry of the window timer to
+// handleTimerFired. The event hand-off goroutines spawned by the handlers must watch the context that Run cancels
+// when Close is called (otherwise Close's wg.Wait never ends while a signal is undelivered): the handlers receive
+// the derived context, not the caller's.
 //@ func (*coalescing).Run
 //@   tags C09
-//@   opt go=ignore
 //@   ghost dctx iface
+//@   ghost sel ref
 //@   requires c != nil && ctx != nil && inv(c)
 //@   loop 0 invariant c == old(c) && nolocks() && inv(c)
 //@   at call WithCancel#0 ghost dctx = res0
+//@   at select#0 assert [C09.run.listens] selhas(c.inputCh) && selhas(c.closeCh)
+//@   at select#0 ghost sel = selchan
+//@   at every send assert [C09.run.nosend] false
+//@   at every select assert [C09.run.nosend.select] forall x :: !selhassend(x)
+//@   at every before call handleInputCh assert [C09.run.dispatch.input] sel == c.inputCh
+//@   at every before call handleTimerFired assert [C09.run.dispatch.timer] sel == timerCh && timerCh != nil
+//@   ghost reg int
+//@   ghost ndone int
+//@   ghost ncancel int
+//@   at entry ghost reg = 0
+//@   at entry ghost ndone = 0
+//@   at entry ghost ncancel = 0
+//@   at call Add#0 ghost reg = reg + arg1
+//@   at call Done#0 ghost ndone = ndone + 1
+//@   at every call CancelFunc ghost ncancel = ncancel + 1
+//@   at select#0 assert [C09.run.registered] reg == 1
+//@   ensures [C09.run.ends] result == nil ==> (sel == c.closeCh || sel == dctx.donech)
+//@   ensures [C09.run.deregisters] result == nil ==> ndone == 1
+//@   ensures [C09.run.cancels] (result == nil && sel == c.closeCh) ==> ncancel >= 1
 //@   at before call handleInputCh#0 assert [C09.run.ctx.input] arg1 == dctx
 //@   at before call handleTimerFired#0 assert [C09.run.ctx.timer] arg1 == dctx
